@@ -53,6 +53,50 @@ model_check!(c11_gen, c11_exec, "C11");
 model_check!(c12_gen, c12_exec, "C12");
 model_check!(c18_gen, c18_exec, "C18");
 
+macro_rules! crash_check {
+    ($gen:ident, $exec:ident, $id:literal) => {
+        fn $gen(seed: u64, run: u64, tier: Tier) -> Value {
+            serde_json::to_value(crate::ccrash::generate($id, seed, run, tier)).unwrap()
+        }
+        fn $exec(plan: &Value, t: &mut Trials) -> RunReport {
+            let plan: crate::ccrash::Plan = serde_json::from_value(plan.clone()).expect("bad plan");
+            crate::ccrash::exec(&plan, t)
+        }
+    };
+}
+crash_check!(c02_gen, c02_exec, "C02");
+crash_check!(c03_gen, c03_exec, "C03");
+
+const CRASH_RULE: &str = "histories = seeded query histories (single mutating queries and multi-query mutable transactions with a seeded abort point; profiles small / values / wide / churn) on DbFile, Db, DbAny(file) and DbAny(mapped) over SimFs, optionally including the closing defragmentation; evaluations = (crash point, constructor) pairs: the disk image after every prefix of the journalled mutating FS calls (plus torn variants of the next write), opened in a worker process with the real constructors under catch_unwind and an allocation cap, then read completely (every element, property, alias, index); C02 requires open and every read to succeed, C03 requires the dump to equal the live dump taken before or after the interrupted step; database creation is excluded; distinct_nontrivial = evaluations whose snapshot held a non-empty recovery log, counted once per distinct (program hash, crash point, constructor)";
+const CRASH_ASSUME: &[&str] = &[
+    "crash = process death: prefix of the issued calls plus at most one torn call; no Drop of the crashed instance runs",
+    "database creation (the constructor's own writes on an empty file) is excluded: the statements speak of histories of mutating queries",
+    "expected states are dumps of the live database taken through the same read queries, so no reference model is involved",
+];
+
+fn crash_def(id: &'static str, generate: fn(u64, u64, Tier) -> Value, exec: fn(&Value, &mut Trials) -> RunReport) -> CheckDef {
+    CheckDef {
+        id,
+        level: "fault_enumeration",
+        generate,
+        exec,
+        steps: "/steps",
+        runs: |t| match t {
+            Tier::Quick => 1200,
+            Tier::Thorough => 20_000,
+        },
+        wall_cap_s: |t| match t {
+            Tier::Quick => 150,
+            Tier::Thorough => 1700,
+        },
+        rule: CRASH_RULE,
+        assumptions: CRASH_ASSUME,
+        real: DB_REAL,
+        stub: FS_STUB,
+        eval_unit: "(crash point, constructor) pairs",
+    }
+}
+
 const MODEL_RULE: &str = "histories = seeded sequences of public-API queries (node/edge/value/alias/index inserts, updates, removals by id, alias and search, explicit transactions with a seeded abort point) executed on one of the six database variants over SimFs, half of them interleaved with clean restarts (only durable state survives), reopening with another file-backed variant, optimize_storage and shrink_to_fit, plus benign I/O noise and the forced contended-read path; evaluations = points at which the complete observable state (every read query over every element, alias, index and the elements search, plus slice/selection probes) was compared with the abstract model; distinct_nontrivial = distinct histories (program hash) containing at least one removal and then either an id reuse or a hash-table rehash (probe)";
 const MODEL_ASSUME: &[&str] = &[
     "the model takes new element ids from the database's answer (checking sign and freshness) and search targets from the database's own search result, so it carries no id-allocation or search semantics",
@@ -87,6 +131,8 @@ pub const FS_STUB: &[&str] = &["disk: in-memory SimFs behind the cfg(agdb_verif)
 
 pub fn all() -> Vec<CheckDef> {
     let mut v = all_storage();
+    v.push(crash_def("C02", c02_gen, c02_exec));
+    v.push(crash_def("C03", c03_gen, c03_exec));
     v.push(model_def("C08", c08_gen, c08_exec));
     v.push(model_def("C09", c09_gen, c09_exec));
     v.push(model_def("C10", c10_gen, c10_exec));
